@@ -1,6 +1,31 @@
 HOOK_COMMITS = []
 NOT_APPLICABLE = {}
 TEXTS = {
+ "C02": {
+  "technique": "stateful property-based testing (rapid): generated API histories with failing writes; byte-level state-dump invariant and an item-by-item differential against a second engine",
+  "level_text": "Generated call histories biased towards writes that fail at the k-th matched document or k-th batch item, with a reference-free oracle over the complete exported state (documents, indexes and their order, change log): failing single calls change nothing, batches equal the one-by-one application of their succeeding items. Thousands (quick) to hundreds of thousands (thorough) of histories; sampling, not proof.",
+  "level_note": "Observes state through the exported catalog; the batch oracle trusts lungo's single-item behaviour and its copy-on-write sharing (checked separately by C03).",
+ },
+ "C07": {
+  "technique": "stateful property-based testing (rapid): generated histories over a collision-rich value pool; uniqueness invariant with an independent key extractor, exactness of rejections",
+  "level_text": "Generated histories of writes and index operations on colliding values; after every call an independent key extractor plus reference BSON equality checks that no two documents share a unique key or _id, and that inserts / unique index builds are rejected for uniqueness exactly when a collision exists. Sampling, not proof.",
+  "level_note": "Trusts ref.IndexKeys / ref.Cmp / ref.Match; key paths crossing arrays that yield no value are outside the extractor's domain.",
+ },
+ "C08": {
+  "technique": "stateful property-based testing (rapid): generated histories; change-log replay oracle, event-id monotonicity, update-description faithfulness; direct generated retention cases",
+  "level_text": "Generated histories whose change log is replayed step by step onto the previous contents and must reproduce the current contents exactly (order included), with structural checks on every event and a faithfulness check of every update description; retention is decided by a separate generated sub-check against the closed-form rule. Sampling, not proof.",
+  "level_note": "Real-time ageing is simulated by rewriting event timestamps; update descriptions are applied with the reference path setter.",
+ },
+ "C15": {
+  "technique": "stateful property-based testing (rapid): generated CRUD + index-management histories; index/collection coherence invariant and rebuild equivalence after every call",
+  "level_text": "Generated histories with the index-coherence invariant checked on the exported catalog after every call (membership by identity, order, rebuild equivalence, Has agreement) and a small model for the management clauses (same definition no-op, conflicts rejected, _id index never dropped). Sampling, not proof.",
+  "level_note": "Coherence is judged with lungo's own matcher for partial filters; reopening from a file is covered by C06.",
+ },
+ "C17": {
+  "technique": "stateful property-based testing (rapid): generated histories where every argument and every returned value is overwritten in place after the call; byte-level state-dump invariant",
+  "level_text": "Generated histories in which the harness plays the most hostile legal caller: after each call it overwrites all argument objects and all returned values in place and requires the complete exported state to stay byte-identical, reads to repeat, and arguments to be unmodified by the call. Sampling, not proof.",
+  "level_note": "Covers the driver-level API (where Transform/Decode copy); bsonkit.Clone's documented sharing of binary payloads below that level is not flagged.",
+ },
  "C14": {
   "technique": "property-based testing (rapid): differential against an independent reference projection, byte-level non-mutation invariant of the stored document, idempotence of repeated projection, driver-level aliasing checks",
   "level_text": "Generated search over documents and projection documents with three oracles: byte-identity of the stored document before/after every projection (reference-free, also outside the agreement domain), agreement with an independently written reference projection (inclusion, exclusion, _id, $slice windows, $elemMatch first match, inclusion/exclusion mix rejected) up to field order, and driver-level checks that Find/FindOne/FindOneAnd* project identically, that decoded results can be overwritten without touching the store and that plain projections only return stored values. Sampling, not proof.",
